@@ -200,6 +200,12 @@ def syncer_family(run, prefixes):
         hist = [ev("advance", "", 4), ev("headStart", "", 0), ev("gossip", "valid", tgt), ev("serve", "ok", rnd.randint(1, 3)),
                 ev("headRelease", "forgedNext", 0)] + [ev("serve", "ok", 64) for _ in range(6)]
         frees.append({"k": "SYNC", "n": n_, "hist": hist, "free": True, "from_tlc": False})
+        # (b') several concurrent Head() callers share the in-flight request whose answer is the lying peer's soft-failing head
+        hist = [ev("advance", "", 4)] + [ev("headStart", "", 0) for _ in range(rnd.randint(2, 3))]
+        if rnd.random() < 0.5:
+            hist += [ev("gossip", "valid", tgt), ev("serve", "ok", rnd.randint(1, 3))]
+        hist += [ev("headRelease", "forgedNext", 0)] + [ev("serve", "ok", 64) for _ in range(6)]
+        frees.append({"k": "SYNC", "n": n_, "hist": hist, "free": True, "from_tlc": False})
     # (c) a Head() caller learns the adjacent header while the sync loop waits for a range that starts with it: no getter
     #     fault anywhere, so the target must still be reached (judged with the full C07 clauses, no model prediction)
     for _ in range(12 if quick else 200):
